@@ -940,7 +940,25 @@ def simplify(trace, pred):
 
 
 def finding_matches(finding, vj):
-    sigs = finding.get("sigs")
-    if sigs is not None and vj.get("sig") not in sigs:
+    """An open finding matches by clause (+ optional extra `clauses`), by exact
+    `sigs` or `sig_prefixes`, and - when it names a `trigger` - only if the
+    failing history really contains that trigger (so that another cause with
+    the same symptom is still reported)."""
+    clauses = [finding.get("clause")] + list(finding.get("clauses", []))
+    if vj.get("clause") not in clauses:
         return False
+    sig = vj.get("sig") or ""
+    sigs = finding.get("sigs")
+    prefixes = finding.get("sig_prefixes")
+    if sigs is not None or prefixes is not None:
+        if not ((sigs and sig in sigs) or (prefixes and any(sig.startswith(p) for p in prefixes))):
+            return False
+    trig = finding.get("trigger")
+    if trig == "long-header-line":
+        # a stored message has a (header) line longer than 78 octets, which the
+        # stdlib header parser re-folds when the message is rendered
+        steps = (vj.get("trace") or {}).get("steps", [])
+        raws = [st.get("raw", "") for st in steps if isinstance(st, dict)]
+        if not any(len(line) > 78 for raw in raws for line in raw.split("\r\n")):
+            return False
     return True
